@@ -148,8 +148,12 @@ pub fn content_matches(issue: &IssueCase, opened: &Opened) -> bool {
             if obj.get("data") != Some(&Value::String(issue.msg.clone())) {
                 return false;
             }
-            let allowed: &[&str] = if issue.layer == Layer::Prelude { &["data", "exp", "iat", "nbf"] } else { &["data"] };
-            obj.keys().all(|k| allowed.contains(&k.as_str())) && (issue.layer != Layer::Prelude || obj.len() == 4)
+            if issue.layer == Layer::Prelude {
+                // the batteries-included builder adds default claims (C13 says which); C01/C02 only ask for the message
+                true
+            } else {
+                obj.keys().all(|k| k == "data")
+            }
         }
     }
 }
